@@ -18,7 +18,7 @@ func init() {
 			"(R1) who may touch the pool: every entity taken from the pool is placed into a table row in the same function; the pool's fields are stored outside the pool's own methods only by the dump loader (whose emptiness guard is rule C17/R3); " +
 			"(R2) generation bump: in the recycle role the generation of the entry at the handle's id is changed by a non-zero constant before the entry is linked into the free list, on every path; the liveness test compares the handle's generation with the generation stored at the handle's id in pool memory; " +
 			"(R3) one recycle per removed row: every recycled entity is the entity of a row that the same function removes (swap-remove of the row stored in the entity index for that entity, or a per-row loop over a table that is reset after the loop); " +
-			"(R4) the pool's raw base pointer is refreshed whenever the buffer may be reallocated (C01/R6); (R5) dump and load copy, and restore every field of, the pool (C17/R3). Not decided: the implicit free list for all recycle orders, count arithmetic.",
+			"(R4) the pool's raw base pointer is refreshed whenever the buffer may be reallocated (C01/R6); (R5) dump and load copy, and restore every field of, the pool (C17/R3); (R6 = C16/R4) a world reset clears the rows of every active table (a full loop over the archetype's table list), so that no row keeps the id of an entity the reset pool hands out again. Not decided: the implicit free list for all recycle orders, count arithmetic.",
 		TrustedBase: []string{"go/types, go/cfg", "roles pool-get / pool-recycle / alive-test derived from field effects"},
 		Rules: []Rule{
 			{ID: "C02/R1", Run: c02r1, Min: 1},
@@ -26,6 +26,7 @@ func init() {
 			{ID: "C02/R3", Run: c02r3, Min: 1},
 			{ID: "C02/R4", Run: c01r6, Min: 1},
 			{ID: "C02/R5", Run: c17r3, Min: 1},
+			{ID: "C16/R4", Run: c16r4, Min: 1},
 		},
 	})
 }
